@@ -6,12 +6,13 @@
 //
 // case:   c11 <n> step*
 //   tree:  tN h | tC h s | tK h s ct cf | tA h s | tM h s | tV h s | tD h | tR h sym par k c.. | tF h q | tE h | tX h | tQ h
-//          tU h s | tL h s | tY h s1 s2 | tI h s M n {k v} off | tJ h s1 s2 | tP k
+//          tU h s | tL h s | tY h s1 s2 | tI h s M n {k v} off | tT h s M n {k v} off | tJ h s1 s2 | tP k
 //   word:  wN h | wC h s | wA h s | wM h s | wV h s | wD h | wR h src sym dst | wF h q | wS h q sym
 //          wU h s | wL h s | wY h s1 s2 | wI h s M n {k v} base | wJ h s1 s2 | wP k
 //   N new, C copy-construct, K selective copy-construct, A copy-assign, M move-construct (source destroyed), V move-assign
 //   (source destroyed), D destroy, R add transition, F final, E EraseFinalStates, X Clear, Q AreTransitionsEmpty, S start,
 //   U RemoveUnreachableStates, L RemoveUselessStates, Y Union (maps reported), I ReindexStates, J UnionDisjointStates,
+//   T TranslateSymbols (symbol map: table, unlisted symbol x -> x + off),
 //   P k = replay of the k-th library operation of the history on fresh operands built from the values recorded then
 // output: per step:  S [extras] L <nlive> { t<i> <T> | w<i> <W> }*
 //   extras:  U/L/J: X <result of the re-run> Z <result in a pristine process>;  Y: MA <map> MB <map> X <result> MA <map> MB <map> Z <same>;
@@ -89,6 +90,11 @@ struct TabReindexF : public VATA::AbstractReindexF {
 	virtual Aut::StateType at(const Aut::StateType& s) const override { return get(s); }
 };
 
+struct TabSymbolF : public Aut::AbstractSymbolTranslateF {
+	std::map<U, U> tab; U off;
+	virtual Aut::SymbolType operator()(const Aut::SymbolType& sy) override { auto it = tab.find(sy); return it == tab.end() ? sy + off : it->second; }
+};
+
 // one library operation on given operands; returns "<result> [maps]" and optionally hands out the result object
 struct LibRec { std::string kind; TA ta, tb; WV wa, wb; Pairs m; U off; };
 
@@ -99,6 +105,7 @@ static std::string runTreeLib(const LibRec& r, Aut& a, Aut& b, std::unique_ptr<A
 	else if (r.kind == "tJ") res.reset(new Aut(Aut::UnionDisjointStates(a, b)));
 	else if (r.kind == "tY") { VATA::AutBase::StateToStateMap ma, mb; res.reset(new Aut(Aut::Union(a, b, &ma, &mb))); maps = showMap("MA", ofStm(ma)) + " " + showMap("MB", ofStm(mb)); }
 	else if (r.kind == "tI") { TabReindexF f; for (auto& p : r.m) f.tab[p.first] = p.second; f.off = r.off; res.reset(new Aut(a.ReindexStates(f))); }
+	else if (r.kind == "tT") { TabSymbolF f; for (auto& p : r.m) f.tab[p.first] = p.second; f.off = r.off; res.reset(new Aut(a.TranslateSymbols(f))); }
 	else throw std::runtime_error("driver: unknown tree op " + r.kind);
 	std::string rs = showTA(obsAut(*res));
 	if (resultFirst) os << rs << (maps.empty() ? "" : " " + maps); else os << maps;
@@ -221,10 +228,10 @@ int main() {
 				else if (k == "tE") { U h = t.num(); tl(h).EraseFinalStates(); }
 				else if (k == "tX") { U h = t.num(); tl(h).Clear(); }
 				else if (k == "tQ") { U h = t.num(); (void)tl(h).AreTransitionsEmpty(); }
-				else if (k == "tU" || k == "tL" || k == "tY" || k == "tI" || k == "tJ") {
+				else if (k == "tU" || k == "tL" || k == "tY" || k == "tI" || k == "tT" || k == "tJ") {
 					LibRec r; r.kind = k; r.off = 0; U h = t.num(); U s1 = t.num(); U s2 = s1;
 					if (k == "tY" || k == "tJ") s2 = t.num();
-					if (k == "tI") { r.m = readMap(t); r.off = t.num(); }
+					if (k == "tI" || k == "tT") { r.m = readMap(t); r.off = t.num(); }
 					tfree(h); r.ta = obsAut(tl(s1)); r.tb = obsAut(tl(s2));
 					std::string maps = runTreeLib(r, tl(s1), tl(s2), &T[h], false);
 					if (!maps.empty()) os << ' ' << maps;
